@@ -9,6 +9,7 @@ from fractions import Fraction
 
 import numpy as np
 
+import collections
 from vmon import core
 from vmon.refmodels import pitch as P
 from vmon.refmodels import sigmaps, timemaps
@@ -201,6 +202,25 @@ def check_add_measures(ctx, part, before, w):
         ctx.violation("add_measures-numbers-not-consecutive", f"numbers in time order: {nums[:20]}", w)
 
 
+def graces_with_main(part):
+    """[(grace note, id)] of the grace notes sanitize_part must keep."""
+    import partitura.score as S
+    plain = collections.defaultdict(set)
+    for n in timemaps.objects_of(part, S.Note, exact=True):
+        plain[int(n.start.t)].add(n.voice)
+    out = []
+    for g in timemaps.objects_of(part, S.GraceNote):
+        last, seen = g, set()
+        while isinstance(getattr(last, "grace_next", None), S.GraceNote) and id(last) not in seen:
+            seen.add(id(last))
+            last = last.grace_next
+        reaches = getattr(last, "grace_next", None) is not None and not isinstance(last.grace_next, S.GraceNote)
+        # the repair attaches the LAST grace note of g's run to a plain note of g's voice at g's onset
+        if reaches or g.voice in plain[int(g.start.t)]:
+            out.append((g, g.id))
+    return out
+
+
 def check_within_measures(ctx, part, fname, w):
     import partitura.score as S
     starts = sorted({int(m.start.t) for m in timemaps.objects_of(part, S.Measure)})
@@ -237,7 +257,8 @@ def install(ctx):
         def pre(*a, **k):
             target = a[0] if a else next(iter(k.values()))
             ps = parts_of(target.parts if isinstance(target, S.Score) else target)
-            return [(p, {"notes": note_table(p), "measures": measure_table(p), "syms": sym_state(p), "w": witness(p)}) for p in ps]
+            return [(p, {"notes": note_table(p), "measures": measure_table(p), "syms": sym_state(p), "w": witness(p),
+                         "graces_with_a_main_note": graces_with_main(p) if fname == "sanitize_part" else None}) for p in ps]
 
         def post(ret, exc, token, a, k):
             if exc is not None:
@@ -253,6 +274,14 @@ def install(ctx):
                     if sum(r[1] for r in keep(before["notes"])) != sum(r[1] for r in keep(after)) or \
                             len([r for r in after if r[5]]) > len([r for r in before["notes"] if r[5]]):
                         c.violation("sanitize_part-changed-sounding-notes", "non-grace sounding time changed", w)
+                    # only grace notes WITHOUT a main note may go: one whose run reaches a main note, or that has a plain
+                    # note of its voice at its onset to be attached to (the documented repair), stays
+                    left = {id(g) for g in timemaps.objects_of(part, S.GraceNote)}
+                    gone = [gid for gobj, gid in before["graces_with_a_main_note"] if id(gobj) not in left]
+                    c.check()
+                    if gone:
+                        c.violation("sanitize_part-removed-grace-note-that-has-a-main-note",
+                                    f"grace notes {gone[:5]} were removed although a main note exists for them", w)
                 elif after != before["notes"]:
                     lost = [r for r in before["notes"] if r not in after][:3]
                     new = [r for r in after if r not in before["notes"]][:3]
@@ -452,11 +481,23 @@ def run_item(ctx, item):
             for m in list(timemaps.objects_of(part, S.Measure)):
                 if rng.random() < 0.5:
                     part.remove(m)
+        # grace notes whose link to the main note (or to the next grace note of the run) was never made, as in a part built by hand
+        unlinked = 0
+        if rng.random() < 0.5:
+            for g in timemaps.objects_of(part, S.GraceNote):
+                if g.grace_next is not None and rng.random() < 0.4:
+                    nxt = g.grace_next
+                    g.grace_next = None
+                    if getattr(nxt, "grace_prev", None) is g:
+                        nxt.grace_prev = None
+                    unlinked += 1
+        if unlinked:
+            ctx.extra["parts_with_unlinked_grace_notes"] += 1
         for f in ["add_measures", "tie_notes", "find_tuplets", "sanitize_part"]:
             ok, _ = ctx.try_call(getattr(S, f), part)
             if not ok:
                 break
-        ctx.case(["gen", item[1]], meta["ties"] > 0 or meta["tuplets"] > 0, cls="gen_score")
+        ctx.case(["gen", item[1]], meta["ties"] > 0 or meta["tuplets"] > 0, cls="gen_score" + ("+unlinked-graces" if unlinked else ""))
     else:
         lo, hi, frac = item[1], item[2], item[3]
         rng = ctx.rng("table", lo)
